@@ -93,6 +93,29 @@ def run(pid, tier, seed):
         rc, out = vlib.run_test_binary(binp, "TestVerifGME", {"VERIF_IN": inp, "VERIF_OUT": outp}, timeout=3000)
         if rc != 0 or "VERIF-GME" not in out:
             raise Infra("GCPME harness failed:\n" + out[-3000:])
+        if pid == "C15":
+            # connectivity flaps with yields that sleep at random in front of every lock acquisition (monitor vs notify vs update)
+            bing = pool.build_pool_harness(scratch, gates=True)
+            flaps = []
+            nfl = 6 if tier == "quick" else 60
+            for k in range(nfl):
+                st = [{"op": "new", "mes": [{"name": "m1", "eps": ["a", "b"]}, {"name": "m2", "eps": ["b", "a"]}], "def": "m1"}]
+                for j in range(6):
+                    e = "ab"[(j + k) % 2]
+                    st += [{"op": "down", "e": e}, {"op": "rpc", "name": ""}, {"op": "up", "e": e}, {"op": "rpc", "name": "m2"}]
+                st.append({"op": "close"})
+                flaps.append({"id": "flap-%d" % k, "steps": st})
+            finp, foutp = scratch.path("flap-scripts.ndjson"), scratch.path("flap-trace.ndjson")
+            with open(finp, "w") as f:
+                for s_ in flaps:
+                    f.write(json.dumps(s_) + "\n")
+            rc, out = vlib.run_test_binary(bing, "TestVerifGME", {"VERIF_IN": finp, "VERIF_OUT": foutp, "VERIF_JITTER": "1"}, timeout=3000)
+            if rc != 0 or "VERIF-GME" not in out:
+                raise Infra("GCPME flap run failed:\n" + out[-3000:])
+            with open(outp, "a") as fo:
+                for ln in open(foutp):
+                    fo.write(ln)
+            scripts += flaps
         verdict = vlib.validate_chunks(scratch, outp, "GCPMETrace", lambda ln: '"op":"reset"' in ln[:80], tag="gtv", min_chunk=800)
         mine = []
         for b in verdict["bad"]:
